@@ -23,23 +23,11 @@ NAN_KEY = -1000000
 
 
 def universe(uid):
-    out = os.path.join(OUT, f"universe_sub_{uid}.json")
-    cfg = os.path.join(OUT, "sub-u.cfg")
-    with open(cfg, "w") as fh:
-        fh.write("INIT OInit\nNEXT ONext\nCHECK_DEADLOCK FALSE\n")
+    from .common import tlc_universe
     empty = os.path.join(OUT, "sub-empty.json")
     with open(empty, "w") as fh:
         fh.write("[]")
-    meta = os.path.join(OUT, "tlc", f"subu-{uid}-{os.getpid()}")
-    env = dict(os.environ, UNIVERSE_ID=uid, UNIVERSE_OUT=out, OUTCOME_FILE=empty)
-    p = subprocess.run(["tlc", "-workers", "1", "-metadir", meta, "-noGenerateSpecTE", "-config", cfg,
-                        "Subproblem.tla"], cwd=SPEC, env=env, capture_output=True, text=True, timeout=1800)
-    subprocess.run(["rm", "-rf", meta])
-    if '"UNIVERSE"' not in p.stdout:
-        raise Machinery("TLC could not enumerate subproblem universe " + uid + "\n" + p.stdout[-3000:])
-    U = json.load(open(out))
-    U.sort(key=lambda d: json.dumps(d, sort_keys=True))
-    return U
+    return tlc_universe("Subproblem", uid, "OInit", "ONext", extra_env={"OUTCOME_FILE": empty})
 
 
 def _rows(inst, L):
@@ -91,16 +79,19 @@ def _rows(inst, L):
 
 
 def _calls(inst):
-    """Run the solvers on one instance; return raw outcome records (floats)."""
+    """Run the solvers on one instance; return raw outcome records (floats).
+    inst["only"] (optional) restricts the solvers: "tan", "geo" or "nrm"."""
     from cobyqa.subsolvers import (tangential_byrd_omojokun, constrained_tangential_byrd_omojokun,
                                    normal_byrd_omojokun, cauchy_geometry, spider_geometry)
     n = inst["n"]
     L = 2.0 ** inst["sc"]
-    g = np.array(inst["g"], float)
-    H = np.array(inst["H"], float) / L
-    xl = np.array([(-np.inf if b[0] <= -INF else b[0] / 8.0 * L) for b in inst["bd"]])
-    xu = np.array([(np.inf if b[1] >= INF else b[1] / 8.0 * L) for b in inst["bd"]])
-    delta = inst["delta"] / 8.0 * L
+    unit = float(inst.get("unit", 8))
+    explicit = inst["hk"] == "explicit"
+    g = np.array(inst["g"], float) / (4.0 if explicit else 1.0)
+    H = np.array(inst["H"], float) / (4.0 if explicit else 1.0) / L
+    xl = np.array([(-np.inf if b[0] <= -INF else b[0] / unit * L) for b in inst["bd"]])
+    xu = np.array([(np.inf if b[1] >= INF else b[1] / unit * L) for b in inst["bd"]])
+    delta = inst["delta"] / unit * L
     aub, bub, aeq, beq = _rows(inst, L)
     hp = lambda v: H @ v
     curv = lambda v: float(v @ H @ v)
@@ -121,11 +112,12 @@ def _calls(inst):
         return 64.0 * EPS * (float(np.abs(g) @ np.abs(s)) + 0.5 * float(np.abs(s) @ np.abs(H) @ np.abs(s))) + 1e-300
 
     kw = {"improve_tcg": bool(inst["tcg"])}
+    only = inst.get("only")
     cau = None
     if inst["cauchy"][0] >= 0 and inst["rows"] == "none" and inst["eqs"] == "none":
         cau = float(Fr(inst["cauchy"][0], inst["cauchy"][1])) * L
     # 1. bound-constrained tangential step
-    if inst["rows"] == "none" and inst["eqs"] == "none":
+    if inst["rows"] == "none" and inst["eqs"] == "none" and only in (None, "tan"):
         try:
             s = tangential_byrd_omojokun(g, hp, xl.copy(), xu.copy(), delta, False, **kw)
             b = band_q(s)
@@ -135,6 +127,8 @@ def _calls(inst):
             rec("tangential", "min", None, type(ex).__name__, 0.0, 0.0, 0.0)
     # 2. linearly constrained tangential step (origin feasible: bub >= 0)
     try:
+        if only not in (None, "tan"):
+            raise StopIteration
         bub0 = np.maximum(bub, 0.0)
         s = constrained_tangential_byrd_omojokun(g, hp, xl.copy(), xu.copy(), aub, bub0, aeq, delta, False, **kw)
         b = band_q(s)
@@ -144,10 +138,12 @@ def _calls(inst):
         re_ = np.abs(aeq @ s)
         eh = 1e-9 * np.linalg.norm(aeq, axis=1) * ns + 64.0 * EPS * (np.abs(aeq) @ np.abs(s)) if aeq.size else np.zeros(0)
         rec("constrained_tangential", "min", s, "none", 0.0, q(s), b, ineq=ri, ineqHi=rh, eq=re_, eqHi=eh)
+    except StopIteration:
+        pass
     except Exception as ex:
         rec("constrained_tangential", "min", None, type(ex).__name__, 0.0, 0.0, 0.0)
     # 3. normal step
-    if inst["rows"] != "none" or inst["eqs"] != "none":
+    if (inst["rows"] != "none" or inst["eqs"] != "none") and only in (None, "nrm"):
         def viol(s):
             return math.sqrt(float(np.sum(np.maximum(aub @ s - bub, 0.0) ** 2) + np.sum((aeq @ s - beq) ** 2)))
         try:
@@ -158,8 +154,9 @@ def _calls(inst):
         except Exception as ex:
             rec("normal", "min", None, type(ex).__name__, 0.0, 0.0, 0.0)
     # 4./5. geometry steps (only meaningful without general constraints)
-    if inst["rows"] == "none" and inst["eqs"] == "none":
-        for const in (0.0, 0.5 * L):
+    if inst["rows"] == "none" and inst["eqs"] == "none" and only in (None, "geo"):
+        gconsts = (0.0, 0.5 * L) if not explicit else (0.0, inst.get("c4", 0) / 4.0)
+        for const in gconsts:
             try:
                 s = cauchy_geometry(const, g, curv, xl.copy(), xu.copy(), delta, False)
                 b = band_q(s)
@@ -172,7 +169,8 @@ def _calls(inst):
         xpt = np.array([[1.0 if i == j else 0.0 for j in range(n)] for i in range(n)]) * L
         extra = np.array([[1.0] * n, [(-2.0 if i == 0 else 1.0) for i in range(n)]]).T * L
         xpt = np.hstack([xpt, extra])
-        for const in (0.0, 1.0 * L, -0.5 * L):
+        sconsts = (0.0, 1.0 * L, -0.5 * L) if not explicit else (0.0, inst.get("c4", 0) / 4.0)
+        for const in sconsts:
             try:
                 s = spider_geometry(const, g, curv, xpt, xl.copy(), xu.copy(), delta, False)
                 if const == 0.0:
@@ -229,14 +227,20 @@ def _chunk(insts):
 def run_universe(tier):
     insts = []
     sizes = {}
-    for uid, kq in (("bd1", 400), ("bd2", 1200), ("bd2s", 400), ("bd3", 800), ("lin2", 1200), ("lin3", 800),
-                    ("lin2p", 1000), ("lin3p", 1500), ("bd3r", 2500), ("nrm2", 2500)):
+    plan = (("bd1", 400, None), ("bd2", 800, None), ("bd2s", 300, None), ("bd3", 500, None), ("lin2", 800, None),
+            ("lin3", 500, None), ("lin2p", 800, "tan"), ("lin3p", 1200, "tan"), ("bd3r", 1500, "tan"),
+            ("nrm2", 1500, "nrm"), ("geo", 1200, "geo"),
+            # the randomly drawn instances are cheap and catch rare numerical paths: all of them, every time
+            ("rndt", 10 ** 9, "tan"), ("rndg", 10 ** 9, "geo"), ("rndn", 10 ** 9, "nrm"))
+    for uid, kq, only in plan:
         U = universe(uid)
         sizes[uid] = len(U)
         if tier != "thorough" and len(U) > kq:
             rng = np.random.RandomState(seed() + len(uid) + len(U))
             idx = sorted(rng.choice(len(U), size=kq, replace=False).tolist())
             U = [U[i] for i in idx]
+        if only:
+            U = [dict(u, only=only) for u in U]
         insts += U
     items = list(enumerate(insts))
     n = max(1, len(items) // (4 * NCPU))
@@ -282,6 +286,8 @@ def check(pid, tier):
         for c in clauses:
             if c.startswith(pid):
                 small = {k: inst[k] for k in ("n", "g", "bp", "hk", "delta", "sc", "tcg", "rows", "eqs")}
+                if inst["hk"] == "explicit" or inst["rows"] == "explicit":
+                    small.update({k: inst[k] for k in ("H", "bd", "c4", "unit", "xaub", "xbub2", "xaeq", "xbeq2") if k in inst})
                 v.add(c, json.dumps(small, sort_keys=True), {"instance": small, "call": {k: r[k] for k in ("fn", "s", "norm", "deltaHi", "q0Lo", "q0Hi", "qs", "dec", "cauchyLo", "exc")}})
             else:
                 v.note("other:" + c[:3])
